@@ -11,6 +11,7 @@ import ErgoProofs.Lemmas.StorageThm
 import ErgoProofs.Lemmas.PlanShape
 import ErgoProofs.Lemmas.PropsAux
 import ErgoProofs.Lemmas.FileLog
+import ErgoProofs.Lemmas.FilesThm
 namespace Ergo
 
 /-- claim order, prune set and compaction output do not depend on map iteration order (any permutation of the item and
@@ -82,4 +83,18 @@ theorem C12_time_stamp_roundtrip (t : Time) (h : t < Time.maxT) : Time.parse (Ti
 theorem C12_file_decodes_to_the_log {limit : Nat} {log : List Event} {f : Storage.Bytes} (h : Codec.FileLog limit log f) :
     Storage.readEvents Codec.classifyLine limit f = .ok log ∧ Codec.AllWf log :=
   Codec.fileLog_reads h
+/-- the calls `appendEvents` issues (open with `O_APPEND`, the repair of the tail, one write) leave under the log's name exactly `appendFile` —
+    from every state of the temporary name and of the descriptors -/
+theorem C12_append_calls_produce_the_appended_file (classify : Storage.Bytes → Storage.LineClass) (encode : Event → Storage.Bytes) (f : Storage.Bytes)
+    (t : Option Storage.Bytes) (fds : Files.Fds) (evs : List Event) :
+    (Files.run { dir := { log := some f, tmp := t }, fds } (Files.appendProgram classify f (Storage.linesOf encode evs))).dir.log
+      = some (Storage.appendFile classify encode f evs) :=
+  Files.appendProgram_result classify encode f t fds evs
+
+/-- that rests on `O_APPEND` (a T3 obligation on every traced open of the log for writing): without it the newline that completes an
+    unterminated last line overwrites the first byte of the log -/
+theorem C12_without_append_mode_earlier_bytes_are_clobbered :
+    (Files.run { dir := { log := some [123, 125], tmp := none } } (Files.appendUnterminated false [49, 10])).dir.log = some [10, 125, 49, 10] :=
+  Files.appendUnterminated_without_append_clobbers
+
 end Ergo
